@@ -12,7 +12,7 @@ WT=/tmp/sc-$$
 flock /tmp/seedcheck.lock git -C /repo worktree add --detach "$WT" HEAD -q || exit 2
 cleanup() { flock /tmp/seedcheck.lock git -C /repo worktree remove --force "$WT" 2>/dev/null; rm -rf "$WT.build" /tmp/sc-$$.*; [ "${APPLY_TO_REPO:-}" = 1 ] && git -C /repo checkout -q -- . ; }
 trap cleanup EXIT
-RACE=""; grep -qi -- "-race" "$D/README.md" 2>/dev/null && RACE="-race"
+RACE=""; grep -qi -- "-race" "$D/README.md" 2>/dev/null && RACE="-race"; { [ -n "${NORACE:-}" ] || [ -f "$D/NORACE" ]; } && RACE=""
 cp "$D/demo_test.go" "$WT/zz_demo_test.go"
 (cd "$WT" && CGO_ENABLED=1 go test $RACE -vet=off -count=1 -run 'TestDemo' . >/tmp/sc-$$.1 2>&1); A=$?
 rm "$WT/zz_demo_test.go"
